@@ -3,6 +3,7 @@ import AaVerif.Aa.ParseCap
 import AaVerif.Aa.ParsePtrace
 import AaVerif.Aa.ParseSignal
 import AaVerif.Aa.ParseRlimit
+import AaVerif.Aa.ParseChangeProfile
 import AaVerif.Generated.AaTables
 /-!
 # C09 — rule text round-trips through the printer and the parser
@@ -233,6 +234,28 @@ example : (parseCommaRules false (renderRule (rlimitRule (S "nofile") (S "65536"
 /-- the rule read back is the rule printed -/
 example : mkRule "rlimit" noQ {} [.s (S "nofile"), .s (S "<="), .s (S "65536")] = rlimitRule (S "nofile") (S "65536") := by
   decide +kernel
+
+theorem cp_mode_words : ∀ m ∈ reqValues T "change_profile" "mode", CapW m := by decide +kernel
+
+/-- **`change_profile [mode] EXEC -> TARGET,` through the library's own parser**: every qualifier, no mode or any mode of
+the table, every keyword-like exec and target word.  The exec word must not be a mode keyword or the arrow: the printed
+text `change_profile safe -> t,` cannot say whether `safe` is the mode or the exec (an exec is a path in every rule the
+generators and the shipped profiles hold, so this excludes no valid rule). -/
+theorem C09_change_profile_all (audit deny : Bool) (m e t : Text)
+    (hm : m = [] ∨ m ∈ reqValues T "change_profile" "mode") (he : CapW e)
+    (hne : e ∉ reqValues T "change_profile" "mode") (harrow : e ≠ S "->") (ht : CapW t) :
+    (parseCommaRules false (renderRule (cpRule audit deny m e t) (padOf []) ++ S "\n")).bind (newRules T) =
+      .ok [mkRule "change_profile" (audit, if deny then S "deny" else []) {} [.s m, .s e, .s t]] :=
+  parse_cp T audit deny m e t
+    (hm.elim Or.inl (fun h => Or.inr ⟨cp_mode_words m h, by simpa using h⟩)) he (by simpa using hne) harrow ht
+
+example : (parseCommaRules false (renderRule (cpRule true false (S "unsafe") (S "/usr/bin/foo") (S "foo//bar")) (padOf []) ++ S "\n")).bind (newRules T)
+    = .ok [mkRule "change_profile" (true, []) {} [.s (S "unsafe"), .s (S "/usr/bin/foo"), .s (S "foo//bar")]] :=
+  C09_change_profile_all true false _ _ _ (Or.inr (by decide +kernel)) (by decide +kernel) (by decide +kernel) (by decide) (by decide +kernel)
+
+/-- the excluded point: an exec word that is a mode keyword is read as the mode -/
+example : (parseCommaRules false (renderRule (cpRule false false [] (S "safe") (S "t")) (padOf []) ++ S "\n")).bind (newRules T)
+    = .ok [mkRule "change_profile" noQ {} [.s (S "safe"), .s [], .s (S "t")]] := by decide +kernel
 
 /-! ## Whole-text round trips over the complete value tables
 
